@@ -398,4 +398,5 @@ def run(res, facts, tier):
     r4_global_heap(res, facts)
     r5_rollback(res, facts)
     from . import c19_own
-    c19_own.run_rules(res, facts, tier)
+    own = c19_own.run_rules(res, facts, tier)
+    c19_own.r8_handover(res, facts, own)
